@@ -280,7 +280,7 @@ func copySourceItem(
 		value = vslice[0]
 	}
 
-	if string(item.Destination[0]) != "." {
+	if len(item.Destination) == 0 || string(item.Destination[0]) != "." {
 		return &JSONPathFormatError{Path: item.Destination}
 	}
 	trimmedDestination := strings.TrimPrefix(item.Destination, ".")
